@@ -139,6 +139,7 @@ static void check_messages(Src &s) {
 static bool accept_all(const char *, const void *) { return true; }
 
 static void run(Src &s) {
+  cleanup_tree(g_scr.dir);  // nothing may leak from a previous (failed) case
   GOpts o;
   o.max_lines = 16;
   o.long_fields = false;
